@@ -194,8 +194,12 @@ func (h *Hub) Run() {
 				delete(h.connections, conn)
 				h.connMu.Unlock()
 
-				close(conn.send)
+				// Drop the connection and its memberships atomically with
+				// respect to its own JoinRoom/LeaveRoom calls.
+				conn.membershipMu.Lock()
+				conn.markDone()
 				h.roomManager.RemoveConnectionFromAllRooms(conn)
+				conn.membershipMu.Unlock()
 				h.metrics.DecrementConnections()
 				h.metrics.UnregisterConnection(conn.ID)
 
@@ -244,9 +248,11 @@ func (h *Hub) Run() {
 				select {
 				case conn.send <- message:
 				default:
-					close(conn.send)
+					conn.membershipMu.Lock()
+					conn.markDone()
 					delete(h.connections, conn)
 					h.roomManager.RemoveConnectionFromAllRooms(conn)
+					conn.membershipMu.Unlock()
 				}
 			}
 			h.connMu.Unlock()
